@@ -386,15 +386,20 @@ pub fn ros_bases(quick: bool) -> Vec<RosCase> {
         SupplySpec::Opaque(Box::new(SupplySpec::Constrained { q: 2, dl: 2, p: 4 })),
     ];
     let mut m: Vec<AC> = vec![];
-    let tl: Vec<u64> = if quick { vec![4, 7] } else { vec![3, 4, 6, 9] };
+    let tl: Vec<u64> = if quick { vec![3, 4, 6, 9] } else { vec![3, 4, 5, 6, 9, 12] };
+    let jl: Vec<u64> = if quick { vec![0, 3] } else { vec![0, 3, 8] };
+    let cl: Vec<u64> = if quick { vec![1, 2] } else { vec![1, 2, 4] };
     for t in &tl {
-        for j in [0u64, 3] {
-            for c in [1u64, 2] {
+        for j in jl.clone() {
+            for c in cl.clone() {
                 m.push((ArrSpec::Sporadic { t: *t, j }, CostSpec::Scalar(c)));
             }
         }
     }
     m.push((ArrSpec::ExtCurve { dmin: vec![1, 5] }, CostSpec::Scalar(1)));
+    // a costly callback whose jitter exceeds its period (bursts), and a cheap frequent one
+    m.push((ArrSpec::Sporadic { t: 6, j: 8 }, CostSpec::Scalar(4)));
+    m.push((ArrSpec::Sporadic { t: 5, j: 0 }, CostSpec::Scalar(1)));
     let mut v = vec![];
     for sup in &sups {
         for a in &m {
@@ -406,7 +411,7 @@ pub fn ros_bases(quick: bool) -> Vec<RosCase> {
                 v.push(RosCase::Chain { supply: sup.clone(), src: a.0.clone(), costs: vec![CostSpec::Scalar(1), a.1.clone()], others: vec![b.clone()], limit: 120 });
                 v.push(RosCase::ChainSummed { supply: sup.clone(), src: a.0.clone(), costs: vec![2, 1, a.1.wcet()], others: vec![b.clone()], limit: 120 });
                 for bw in [false, true] {
-                    for (k0, k1) in [(Kind::Polled(1), Kind::Polled(2)), (Kind::Polled(2), Kind::Polled(1)), (Kind::Timer, Kind::PolledUnknown), (Kind::PolledUnknown, Kind::EventSource)] {
+                    for (k0, k1) in [(Kind::Polled(1), Kind::Polled(2)), (Kind::Polled(2), Kind::Polled(1)), (Kind::Timer, Kind::PolledUnknown), (Kind::PolledUnknown, Kind::EventSource), (Kind::PolledUnknown, Kind::Timer), (Kind::Polled(1), Kind::Timer), (Kind::Timer, Kind::Timer)] {
                         for sc in [vec![0usize], vec![1, 0]] {
                             v.push(RosCase::Sub {
                                 bw,
